@@ -91,6 +91,14 @@ func (st *serTracer) bufOrder(ctx []ssa.CallInstruction, fn *ssa.Function, v ssa
 			}
 			return base
 		}
+		if callee := x.Call.StaticCallee(); callee != nil && an.FnPkgPath(callee) == "encoding/binary" && strings.HasPrefix(callee.Name(), "AppendUint") && len(x.Call.Args) == 3 {
+			// binary.BigEndian.AppendUintN(buf, v): an append of the encoded value
+			base := st.bufOrder(ctx, fn, x.Call.Args[1], seen, depth+1)
+			if fs := st.fieldsOf(ctx, x.Call.Args[2]); len(fs) > 0 {
+				base = append(base, serTok{Fields: fs, Pos: x.Pos()})
+			}
+			return base
+		}
 		return st.callOrder(ctx, fn, x, seen, depth)
 	case *ssa.Extract:
 		if c, ok := x.Tuple.(*ssa.Call); ok && x.Index == 0 {
@@ -142,6 +150,18 @@ func (st *serTracer) bufOrder(ctx []ssa.CallInstruction, fn *ssa.Function, v ssa
 	case *ssa.Const:
 		return nil
 	case *ssa.Parameter:
+		// a buffer handed to an append-style helper: continue with the caller's argument, so that
+		// the tokens already in the buffer keep their own order
+		if len(ctx) > 0 && x.Type().String() == "[]byte" {
+			call := ctx[len(ctx)-1]
+			for i, prm := range fn.Params {
+				if prm == x && i < len(call.Common().Args) {
+					if sub := st.bufOrder(ctx[:len(ctx)-1], call.Parent(), call.Common().Args[i], map[ssa.Value]bool{}, depth+1); len(sub) > 0 {
+						return sub
+					}
+				}
+			}
+		}
 		if fs := st.fieldsOf(ctx, v); len(fs) > 0 {
 			return []serTok{{Fields: fs, Pos: fn.Pos()}}
 		}
